@@ -65,6 +65,29 @@ func fatDoc() map[string]any {
 	return doc
 }
 
+// casePairDoc: keys that differ only in case (legitimate, distinct Go names) in every map the generator orders:
+// an ordering that treats them as equal leaves their relative order to the map iteration.
+func casePairDoc() map[string]any {
+	str := aspec.Schema{K: "string"}
+	i64 := aspec.Schema{K: "int64"}
+	a := &aspec.ASpec{Base: aspec.Base{Form: "none"}, SpecName: "openapi.yaml", Flags: aspec.Flags{APIHandler: true, Client: true}, Security: aspec.Sec{K: "none"}}
+	pairProps := func(extra string) aspec.Schema {
+		return objSchema(aspec.Prop{Name: "kind", Schema: str, Req: true}, aspec.Prop{Name: "userName", Schema: str}, aspec.Prop{Name: "username", Schema: str}, aspec.Prop{Name: "itemID", Schema: i64, Req: true},
+			aspec.Prop{Name: "itemId", Schema: i64, Req: true}, aspec.Prop{Name: "zetaValue", Schema: str}, aspec.Prop{Name: "ZetaValue2", Schema: str}, aspec.Prop{Name: extra, Schema: str})
+	}
+	a.Schemas = append(a.Schemas, aspec.NamedSchema{Name: "CatKind", Schema: pairProps("meow")}, aspec.NamedSchema{Name: "Catkind", Schema: pairProps("purr")}, aspec.NamedSchema{Name: "DogKind", Schema: pairProps("bark")},
+		aspec.NamedSchema{Name: "Pets", Schema: aspec.Schema{K: "oneOf", Of: []aspec.Schema{{K: "ref", To: "CatKind"}, {K: "ref", To: "Catkind"}, {K: "ref", To: "DogKind"}}, DiscProp: "kind",
+			DiscMap: []aspec.KV{{K: "cat", V: "CatKind"}, {K: "CAT", V: "CatKind"}, {K: "Cat", V: "Catkind"}, {K: "dog", V: "DogKind"}, {K: "DOG", V: "DogKind"}, {K: "doG", V: "DogKind"}}}})
+	for _, seg := range []string{"fooBar", "foobar", "FooBar", "fooBAR", "plain"} {
+		t := []aspec.Seg{{K: "lit", S: seg}, {K: "var", S: "id"}}
+		op := simpleOp("GET", t)
+		op.Params = append(op.Params, aspec.Param{In: "query", Name: "sortBy", Schema: str}, aspec.Param{In: "query", Name: "sortby", Schema: str}, aspec.Param{In: "header", Name: "X-Trace", Schema: str})
+		op.Responses = []aspec.RespRef{{Status: "200", R: &aspec.Response{Desc: "ok", Headers: []aspec.Header{{Name: "X-RateLimit", Schema: i64}, {Name: "X-Ratelimit2", Schema: i64}}, Body: aspec.Body{K: "json", Schema: &aspec.Schema{K: "ref", To: "Pets"}}}}}
+		a.Paths = append(a.Paths, aspec.PathItem{Template: t, Ops: []aspec.Op{op}})
+	}
+	return a.Document()
+}
+
 func checkC12(c *core.Check) {
 	c.Assumptions = []string{
 		"Go's map iteration order cannot be enumerated or seeded from outside: schedules are sampled (runs in one process and in separate processes); with k >= 4 entries and a first-key-wins or whole-order site, one pair of runs differs with probability >= 3/4",
@@ -88,6 +111,8 @@ func checkC12(c *core.Check) {
 	var specs []spec
 	fat, _ := json.MarshalIndent(fatDoc(), "", " ")
 	specs = append(specs, spec{"map-fat", core.GenJob{Spec: string(fat), SpecName: "openapi.yaml", Package: "gen", SpecHandler: "openapi.yaml", Client: true, APIHandler: true, DoNotEdit: true, Config: "cors:\n  enable: true\n"}})
+	cp, _ := json.MarshalIndent(casePairDoc(), "", " ")
+	specs = append(specs, spec{"case-pairs", core.GenJob{Spec: string(cp), SpecName: "openapi.yaml", Package: "gen", SpecHandler: "openapi.yaml", Client: true, APIHandler: true, DoNotEdit: true}})
 	ks := kitchenSpec()
 	ks.Flags.Client = true
 	specs = append(specs, spec{"kitchen", ks.Job("k")})
@@ -187,7 +212,7 @@ func checkC12(c *core.Check) {
 	c.Add("evaluations", int64(runs))
 	c.Add("distinct_nontrivial", int64(jr.Nontriv+len(jr.Rejects)))
 	c.Add("programs", int64(len(specs)))
-	c.Cov["rule"] = "TLC (MC_Determinism) checks, for every site of the site table and every permutation of 4 keys, that what the site emits does not depend on the schedule; on the code side a map-fat spec (>= 4 entries in paths, schemas, properties, responses, headers, parameters, security schemes, one requirement object, discriminator mapping, server variables with interacting defaults, media types, scopes), the kitchen and carrier specs and a seeded sample of matrix cells are each generated procs x perProc times (separate processes x repeated runs); TLC (Trace_Determinism) requires equal results and file hashes; non-trivial = specs whose generation succeeds"
+	c.Cov["rule"] = "TLC (MC_Determinism) checks, for every site of the site table and every permutation of 4 keys, that what the site emits does not depend on the schedule; on the code side a spec whose map keys differ only in case (properties, paths, component names, mapping keys, parameters), a map-fat spec (>= 4 entries in paths, schemas, properties, responses, headers, parameters, security schemes, one requirement object, discriminator mapping, server variables with interacting defaults, media types, scopes), the kitchen and carrier specs and a seeded sample of matrix cells are each generated procs x perProc times (separate processes x repeated runs); TLC (Trace_Determinism) requires equal results and file hashes; non-trivial = specs whose generation succeeds"
 	c.Cov["bounds"] = map[string]any{"specs": len(specs), "processes_per_spec": procs, "runs_per_process": perProc}
 	c.Sample(map[string]any{"spec": "map-fat", "document": trunc(string(fat), 1200)})
 	for _, rj := range jr.Rejects {
